@@ -102,6 +102,7 @@ def run(repo, chk, tier):
     count(repo, chk)
     bound(repo, chk, tier)
     chain(repo, chk)
+    node_order(repo, chk)
     chk.info("not decided: flatness of the accepted sample, cal_max_weight (numerical maximisation), rounding, refill estimate")
 
 
@@ -257,6 +258,60 @@ def roles(repo, chk):
             chk.violation("S-roles", gm.key, "order:n=%d" % n, "n=%d: the returned four-vectors carry the masses %s, the particles were declared as %s" % (n, got, mus), file=PS, line=gm.lineno)
 
 
+# --------------------------------------------------------------------------------------- S-perm
+def node_order(repo, chk):
+    """config_loader/sample.py::trans_node_order reorders the generator structure and the particle -> position table
+    with the same permutation: every particle still finds its own mass"""
+    import itertools
+    SAMPLE = "tf_pwa/config_loader/sample.py"
+    chk.rule("S-perm", "trans_node_order(struct, index, order_trans, 0), interpreted on mass tokens for every permutation of 3 and 4 top-level entries (one of them a nested sub-structure): following the new index in the new structure reaches the same mass as following the old index in the old structure, for every particle")
+    fn = repo.fn_opt(SAMPLE + "::trans_node_order")
+    if fn is None:
+        raise AnalysisError("anchor vanished: %s::trans_node_order" % SAMPLE)
+
+    def isinst(tr, args, kwargs, n):
+        return isinstance(args[0], (list, tuple))
+
+    def walk(struct, path):
+        cur = struct
+        for k in path:
+            if not (isinstance(cur, (list, tuple)) and len(cur) == 2 and isinstance(cur[1], (list, tuple))):
+                return None
+            if not 0 <= int(k) < len(cur[1]):
+                return None
+            cur = cur[1][int(k)]
+        return cur
+
+    worlds = [
+        (("M", ["ma", "mb", "mc"]), {"A": (0,), "B": (1,), "C": (2,)}),
+        (("M", ["ma", ("mR", ["mb", "mc"]), "md"]), {"A": (0,), "R": (1,), "B": (1, 0), "C": (1, 1), "D": (2,)}),
+        (("M", ["ma", "mb", ("mR", ["mc", "md"]), "me"]), {"A": (0,), "B": (1,), "R": (2,), "C": (2, 0), "D": (2, 1), "E": (3,)}),
+    ]
+    n_cases, bad = 0, None
+    for struct, index in worlds:
+        width = len(struct[1])
+        for perm in itertools.permutations(range(width)):
+            order = {sp.Integer(i): sp.Integer(perm[i]) for i in range(width)}
+            tr = Translator(repo, hooks={"builtin.isinstance": isinst}, max_depth=6)
+            idx_in = {k: tuple(sp.Integer(x) for x in v) for k, v in index.items()}
+            try:
+                out = tr.call_fn(fn, [(struct[0], list(struct[1])), idx_in, {int(k): v for k, v in order.items()}, sp.Integer(0)])
+            except Unmodelled as e:
+                raise AnalysisError("trans_node_order cannot be interpreted: %s" % e)
+            n_cases += 1
+            if not (isinstance(out, tuple) and len(out) == 2 and isinstance(out[1], dict)):
+                raise AnalysisError("trans_node_order no longer returns (struct, index)")
+            new_struct, new_index = out
+            for name, path in index.items():
+                want = walk(struct, path)
+                got = walk(new_struct, new_index.get(name, ()))
+                if got != want and bad is None:
+                    bad = "order_trans %s on %s: particle %s had the mass entry %s at %s, the new index %s points at %s in %s" % (dict(enumerate(perm)), struct, name, want, path, tuple(int(x) for x in new_index.get(name, ())), got, new_struct)
+    chk.oblige("S-perm", "%d permutations on 3 structures: index and structure stay consistent" % n_cases, bad is None)
+    if bad:
+        chk.violation("S-perm", fn.key, "consistency", bad + " - generated four-momenta are attached to the wrong particle (off-shell events)", file=SAMPLE, line=fn.lineno)
+
+
 # --------------------------------------------------------------------------------------- S-count
 def count(repo, chk):
     """generate() interpreted as a whole on token batches: generate_mass(n) hands out n fresh event tokens per mass
@@ -331,6 +386,7 @@ def count(repo, chk):
 # --------------------------------------------------------------------------------------- E6-mono / S-bound
 def bound(repo, chk, tier):
     chk.rule("E6-mono", "get_p(M, ma, mb)^2 is non-decreasing in M and non-increasing in ma for M >= ma + mb (certificate: after M = ma + mb + t the derivative is a quotient of polynomials with non-negative coefficients)")
+    chk.rule("S-range", "mass_range[i] (importance factor, search box of cal_max_weight) is the kinematic range of the i-th system mass: from the sum of its own particles' masses to m0 minus the other particles' masses (n = 3..%d)" % (5 if tier == "quick" else 6))
     chk.rule("S-bound", "default weight <= 1 (n = 3..%d): get_weight's factors are get_p(M_{i+1}, M_i, mu_i) with the daughter masses of set_decay's bound factors get_p(emmax_i, emmin_i, mu_i); emmin_i <= M_i and M_{i+1} <= emmax_i for every generated mass; the importance factor is <= 1; composition: each factor is bounded by monotonicity, all factors are non-negative" % (5 if tier == "quick" else 6))
     gp = repo.fn(K + "get_p")
     Mx, ma, mb, t = sp.symbols("M ma mb t", positive=True)
@@ -382,6 +438,13 @@ def bound(repo, chk, tier):
             tr.call_fn(cls.methods["__init__"], [Mtop, list(mus)], self_obj=so)
             bound_calls = list(calls)
             del calls[:]
+            # S-range: the box of system masses (used by mass_importances and as the search box of cal_max_weight)
+            mr = so.attrs.get("mass_range")
+            want_mr = [(sum(mus[-(i + 2):]), Mtop - sum(mus[:n - (i + 2)])) for i in range(n - 2)]
+            ok_mr = isinstance(mr, list) and len(mr) == n - 2 and all(isinstance(x, (tuple, list)) and len(x) == 2 and sp.expand(sp.sympify(x[0]) - w[0]) == 0 and sp.expand(sp.sympify(x[1]) - w[1]) == 0 for x, w in zip(mr, want_mr))
+            chk.oblige("S-range", "n=%d: mass_range[i] = (sum of the last i+2 masses, m0 - sum of the other masses), i = 0..%d" % (n, n - 3), ok_mr)
+            if not ok_mr:
+                chk.violation("S-range", K + "PhaseSpaceGenerator.get_mass_range", "n=%d" % n, "n=%d: mass_range is %s, the kinematic limits of the system masses are %s: the importance factor and the box in which cal_max_weight looks for the maximum weight are wrong (weights above one / non-flat sample)" % (n, mr, want_mr), file=PS, line=cls.methods["get_mass_range"].lineno)
             ms = tr.call_fn(cls.methods["generate_mass"], [sp.Symbol("N", positive=True)], self_obj=so)
             del calls[:]
             imp = sp.sympify(tr.call_fn(cls.methods["mass_importances"], [list(ms)], self_obj=so))
